@@ -195,7 +195,7 @@ Print Assumptions C03_lattice_models_agree.
    outside the matrix; through any number of analyses on one Lattice object from any earlier state *)
 Theorem C03_lattice_never_panics_debug :
   forall (dbg ovf : bool) (nl nr : N) (data : list Z), matrix_ok nl nr data = true ->
-  forall K1 K2, 0 <= K1 -> 0 <= K2 -> (forall z, In z data -> - K1 <= z <= K1) ->
+  forall K1 K2 : Z, (0 <= K1)%Z -> (0 <= K2)%Z -> (forall z, In z data -> (- K1 <= z <= K1)%Z) ->
   forall (rs : list (nat * list node)) (L0 : plat),
     forallb (round_wf nl nr data) rs = true -> Forall (round_bounded K1 K2) rs ->
     exists r, prounds dbg ovf nl nr data L0 rs = POk r.
